@@ -28,11 +28,14 @@ def run(tier):
         if nraw < 2:
             raise cdb.AnalysisBroken("STRSAFE: fewer than 2 uses of the raw window by string consumers/printf found")
         H.budget(prog, rep, L)
+        if H.span_rule(prog, rep) < 1:
+            raise cdb.AnalysisBroken("STRSAFE: the header/value split (span + 1) was not found in http.c")
         H.status_gate(prog, rep, L)
         H.freenull(prog, rep)
         H.cookie_init(prog, rep, L)
         from . import c07, c14
         c07.orphan_rule(prog, rep)     # "leaks nothing": the request's writer must not orphan a queued buffer
+        c07.writer(prog, rep)          # the request goes out through the buffered writer: its failure/in-flight discipline (F1-F3, SLOT; shared with C07)
         # "leaks nothing", "never reads or writes outside its own buffers": the allocation discipline of the anchored units
         # (acquisitions tested before use, released on every failure path, realloc never over its argument; rules shared with C14)
         wprog = ir.Program(None, cfg)
